@@ -339,7 +339,16 @@ def _skolem_hist_frame(F, E, self, field, inow, oid, pc, props):
     return Oblig(oid, pc, Implies(k.ne(inow), value_same(a, b)), "post", props)
 
 
-def verify_update(ex, contract, timeout_ms=30000, restrict=None):
+def _restrict_flat(S, self, args):
+    return [Not(S.get(self, "_has_strat_children")), Not(S.get(self, "_paper_trade"))]
+
+
+VARIANTS = {"flat": _restrict_flat}
+
+
+def verify_update(ex, contract, timeout_ms=30000, restrict=None, variant=None):
+    if variant:
+        restrict = VARIANTS[variant]
     from pyvc.verify import FuncReport, entry_state, discharge
 
     fr = FuncReport(contract.qualname)
